@@ -28,6 +28,10 @@ CLAIMED = {
    text="Seeded search over a real revision cache (LRU / orchestrator / sharded by configuration; capacities 1-4 items, optional byte limit, 1-2 shards) whose backing store is the real collection of a real node, so every load goes through the storage seam (park and injected-error points inside the loader); 2-4 tasks issue get (by revision id, by current version, old revision), get-active, put, upsert, remove, peek and metadata-only channel changes followed by the feed's Remove on shared keys; the instrumenter inserts a scheduler yield before every atomic operation of the cache files so the load / remove / evict overlaps around the memory-state compare-and-swaps are explored. Oracle: every served revision has the stored body, revision id, history and deletion flag, and a channel set not older than the last change whose invalidation had returned before the read was invoked; at every scheduler step the LRU list and lookup map agree and hold at most the configured capacity; at quiescence no failed or unfinished load is cached, every cached item is accounted, the reported item and byte totals equal a recount, and both return to zero after every key is removed.",
    note="The channel-change clause is checked at component level (the wrapper models channels as part of the document read); whole-database delivery of a metadata-only change through the feed is not separately driven here.",
    technique="deterministic simulation with AST-inserted yields before atomics; storage-seam faults inside the loader; recount oracle", design="4/C16"),
+ "C12": dict(level="exploration",
+   text="Seeded search over a real Authenticator (through real DatabaseContexts on 1-2 nodes sharing the bucket) on the simulated datastore: tasks create / disable / enable / delete / recreate users, change passwords (arbitrary strings incl. empty, long, non-UTF-8), create and delete sessions (TTL, one-time) and authenticate by password, cookie and one-time session, with several tasks presenting the same one-time session concurrently (interleaved at the session get / user load / delete), credential changes placed right after a session was issued, the fake clock moved past TTLs and around the refresh threshold, and storage errors / CAS mismatches injected on session and user operations. Oracle over the recorded invoke/return history (register semantics): every successful authentication must be justified by credentials that were possible at some instant of the attempt (user exists, enabled, that password current; session exists, not deleted, not expired, issued after the last completed password change or user deletion), it must return that user, and a one-time session succeeds at most once ever.",
+   note="Checked at Authenticator level (AuthenticateUser / AuthenticateCookie / AuthenticateOneTimeSession); the storage seam restores Couchbase Server's 'not found' answer for deleting an already deleted document, which rosmar does not give. The converse (valid credentials always authenticate) is not demanded.",
+   technique="deterministic simulation; history-based oracle with possible-state (register) semantics over event-stamped intervals", design="4/C12"),
 }
 
 NA = {
